@@ -147,13 +147,33 @@ class Trav(Suite):
                 assert t.pid().tolist() == pids
             e2 = lambda nd, pv: enter(nd.id, pv)
             l2 = lambda nd, ks: leave(nd.id, ks)
+            nodeobs = {"P": {}, "C": {}}
+            if case.get("nodevals", (n + root) % 2 == 0):
+                # callbacks whose VALUES carry the node object itself (as the library's own callbacks do: CutShortTipBranch keeps
+                # `(dis, n)`, ToImageStack returns `n`): what a later call receives must still be the node the earlier call saw
+                def e2(nd, pv):
+                    if pv is not None:
+                        nodeobs["P"][int(nd.id)] = int(pv[0].id)
+                    return (nd, enter(nd.id, None if pv is None else pv[1]))
+
+                def l2(nd, ks):
+                    nodeobs["C"][int(nd.id)] = [int(k[0].id) for k in ks]
+                    vals = [k[1] for k in ks]
+                    out = leave(nd.id, vals)
+                    ks.clear()
+                    return (nd, out)
             if api == "tree":
                 ret = t.traverse(enter=e2, leave=l2, root=root)
             else:
                 ret = t.node(root).traverse(enter=e2, leave=l2)
+        if isinstance(ret, tuple):
+            ret = ret[1]
         if case.get("big"):
             return {"n_log": len(log), "first": log[:2], "last": log[-1], "ret": int(ret)}
-        return {"log": log, "ret": int(ret)}
+        res = {"log": log, "ret": int(ret)}
+        if api != "swc_utils":
+            res["nodeobs"] = nodeobs
+        return res
 
     def lines(self, case, res):
         if case.get("big") or "exc" in res:
@@ -214,6 +234,13 @@ class Trav(Suite):
                     out.append(("leave-order", f"leave({i}) before child {c}"))
         if res["ret"] != ret:
             out.append(("return-value", f"returned {res['ret']}, start node's value is {ret}"))
+        ob = res.get("nodeobs") or {"P": {}, "C": {}}
+        for i, p in ob["P"].items():
+            if int(p) != pids[int(i)]:
+                out.append(("enter-value", f"enter({i}) received its parent's value, a node: it reads as node {p}, the parent's call was on node {pids[int(i)]}")); break
+        for i, cs in ob["C"].items():
+            if sorted(int(c) for c in cs) != sorted(kids.get(int(i), [])):
+                out.append(("leave-values", f"leave({i}) received its children's values, nodes: they read as {cs}, the children are {sorted(kids.get(int(i), []))}")); break
         return out[:3]
 
     def nontrivial(self, case, res):
